@@ -12,6 +12,22 @@ real `SynReactor`):
   G5  symmetry pruning is invisible: gluing EVERY raw match through the reactor's own internals
       gives the same set as the pruned run.
 
+History stream (hidden state between calls).  The streams above hand every (template, substrate) call to a pool worker of its
+own, so two writings of one template seldom meet inside one interpreter, and their renumberings permute ALL labels of the reaction
+(for a centre template the label set of the centre then changes as well).  A *history* is a sequence of rule applications run in
+ONE fresh interpreter: one template under renumberings that keep its label set (a permutation inside the centre / inside the
+context / inside each element class / a single transposition / any permutation), under fresh labels, as written, and in another
+atom order; rewritten substrate SMILES; other templates in between (the same template on another substrate, a template of the
+same family, any other); exact repetitions of earlier steps; `automorphism` True and False; the template handed over as a fresh
+ITS graph, a graph object shared with an earlier step, a SynRule object kept from an earlier step, or a string; strategies in
+shuffled order.  Populations: generated rule-like templates with symmetry ('one of n equivalent ligands reacts' for several
+centre atoms / ligands / reagents, and text-book classes with two equal ends or two equal components) on generated substrates
+(every open valence of a context atom saturated by hydrogen or a randomly drawn substituent, so that positions the template's
+symmetry exchanges usually differ chemically; sometimes a spectator molecule), the hand-written symmetric pairs, corpus
+reactions.  The specification side does not look at the history: every step must reproduce the result of its chemistry's call as
+written, applied alone in an interpreter of its own (G1/G2), its own un-pruned gluing (G5), and G3/G4 on the step itself.  A
+failing history is cut down to the failing step alone, else one earlier step + the failing step, else the prefix.
+
 Sets are compared as sets of strings; when they differ, they are compared once more with bond orders
 forgotten (`reactor_inv_common.kekule_blind`: same skeleton, hydrogens, charges).  Equality there means the
 two runs differ only in which Kekule form RDKit wrote for a ring it was handed as aromatic but does not
@@ -342,6 +358,8 @@ def run(ctx):
         "the glue step is an abstract equivariant function in the Lean statements (hypothesis GlueEquivariant, discharged by C03's model); "
         "at implementation level it is the real SynReactor",
         "harness/reactor_inv_common.py (tables read from RDKit, rewriting, process pool, BaseException time-out)",
+        "history stream: the template renumbering is self-checked (same molecules; same atoms, charges, hydrogen counts and bonds when read "
+        "back through the renaming); a fork of the harness process (which never imports synkit) is the library's initial state",
     ]
     ctx.assumptions = [
         "substrates are SMILES strings; templates are ITS graphs built by rsmi_to_its from mapped reactions (centre or full); no wildcards, partial=False",
@@ -356,7 +374,10 @@ def run(ctx):
         f"({'30 with <=40 atoms' if quick else 'all of them'}; ecoli/USPTO/hydro vendored in corpus/c04_reactions.txt, parsable, fully mapped, hydrogens not mixed) "
         "x template in {centre, full ITS} x {forward, backward} x substrate in {own side; for centre templates also a foreign corpus side, "
         "60% drawn among reactions with the same changed-bond multiset}; each case = base call (twice, plus every raw match glued) "
-        f"+ {k}x{k} (template renumbering x substrate rewriting) variants, strategies all/comp/bt; per-run time-out {timeout}s (skipped, counted).")
+        f"+ {k}x{k} (template renumbering x substrate rewriting) variants, strategies all/comp/bt; per-run time-out {timeout}s (skipped, counted).  "
+        f"History stream: {90 if quick else 600} histories of 5-12 calls, each history in a fresh interpreter (main chemistry by strata: 6/14 generated "
+        "'one of n equivalent ligands reacts' templates, 4/14 other rule-like symmetric templates, 2/14 hand-written pairs, 2/14 corpus; "
+        "a quarter of the histories a 'ladder' of one kind of renumbering), reference call per chemistry in an interpreter of its own.")
     ctx.nontrivial_rule = "distinct (template, direction, substrate, seeds) with >=1 reaction produced under strategy all"
     build_and_audit(ctx, ["SynKitProofs.Props.C05"], "SynKitProofs/Audit/C05.lean", THEOREMS)
 
@@ -371,7 +392,7 @@ def run(ctx):
     try:
         t = time.time()
         reg = load_regress()
-        run_cases(ctx, pool, reg, max(timeout, 30.0), "regress", shrink=False)
+        run_cases(ctx, pool, [c for c in reg if c.get("stream") != "history"], max(timeout, 30.0), "regress", shrink=False)
         ctx.count("regress_cases", len(reg))
         run_cases(ctx, pool, extra_cases(ctx, k), timeout, "extra")
         stamps["regress+extra"] = round(time.time() - t, 1); t = time.time()
@@ -379,12 +400,23 @@ def run(ctx):
         run_cases(ctx, pool, cases, timeout, "corpus")
         stamps["corpus"] = round(time.time() - t, 1); t = time.time()
         graph_stream(ctx, pool, corpus, infos, 40 if quick else 200)
-        stamps["graph"] = round(time.time() - t, 1)
-        ctx.extra["stage_wall_s"] = stamps
+        stamps["graph"] = round(time.time() - t, 1); t = time.time()
     finally:
         pool.close()
-    ctx.obligation("correspondence: result sets invariant under template renumbering / substrate rewriting / repetition; "
-                   "comp within all; bt = comp or all; pruning invisible", not ctx.violations)
+    fpool = FreshPool()
+    try:
+        hreg = [history_from_case(c) for c in reg if c.get("stream") == "history"]
+        run_histories(ctx, fpool, hreg, max(timeout, 30.0), "regress-history", shrink=0)
+        chems = build_chems(ctx, corpus, infos, 2 if quick else 4, 40 if quick else 200, 40 if quick else 50)
+        for c in chems:
+            ctx.count("history_chemistries:" + c["family"])
+        run_histories(ctx, fpool, build_histories(ctx, chems, 90 if quick else 600), timeout, "history")
+        stamps["history"] = round(time.time() - t, 1)
+        ctx.extra["stage_wall_s"] = stamps
+    finally:
+        fpool.close()
+    ctx.obligation("correspondence: result sets invariant under template renumbering / substrate rewriting / repetition, also inside "
+                   "one interpreter after other calls (histories); comp within all; bt = comp or all; pruning invisible", not ctx.violations)
 
 
 # ----------------------------------------------------------------------------- graph-level stream
@@ -490,8 +522,641 @@ def graph_judge(ctx, pool, tasks):
 
 
 
+# ============================================================================= in-process histories
+# Hidden state between calls.  Every other stream of this check hands one (template, substrate) call to a
+# pool worker, so two writings of the same template rarely meet in one interpreter, and the renumberings used
+# there permute ALL labels of the reaction (for a centre template the set of labels inside the centre then
+# changes).  A history is a sequence of rule applications executed in ONE fresh interpreter: the same template
+# under several renumberings that keep its label set (permutation inside the centre, inside the context, inside
+# each element class, one transposition), under fresh labels and in another atom order, with rewritten substrate
+# SMILES, interleaved with other templates (same template / other substrate, same kind of centre, unrelated),
+# with exact repetitions, automorphism True and False, template objects reused or rebuilt, strategies in shuffled
+# order.  The specification side never looks at the history: every step is compared with the result of the
+# chemistry's call AS WRITTEN in an interpreter of its own (G1/G2), with its own un-pruned gluing (G5), and G3/G4
+# are evaluated on the step alone.
+
+PERM_KINDS = ("full", "centre", "context", "element", "swap", "fresh", "identity")
+# drawn with these weights: renumberings that keep the label set AND the element of every label collide with every cheap key
+# (label set, label -> element, canonical form of the rule), so they are the ones a numbering-dependent memo is most exposed to
+PERM_DRAW = ("full", "centre", "context", "element", "element", "element", "swap", "swap", "fresh", "identity")
+
+# Rule-like templates (context atoms written without hydrogens, as rule collections write them) of text-book
+# reaction classes whose left-hand side, right-hand side or centre has symmetry: equivalent ligands of which one
+# reacts, two equal ends, two equal components.  Substrates are generated by decorating a side (see `decorate`).
+RULE_TEMPLATES = [
+    ("silyl_chloride_hydrolysis", "[C:1][Si:2]([C:3])([C:4])[Cl:5].[OH2:6]>>[C:1][Si:2]([C:3])([C:4])[OH:6].[ClH:5]"),
+    ("hydroamination_expl", "[C:1][N:2]([H:6])[C:3].[C:4]=[C:5]>>[C:1][N:2]([C:3])[C:4][C:5][H:6]"),
+    ("hydroamination_impl", "[C:1][NH:2][C:3].[C:4]=[C:5]>>[C:1][N:2]([C:3])[C:4][CH:5]"),
+    ("enolisation", "[C:1][C:2](=[O:3])[CH:4]>>[C:1][C:2]([OH:3])=[C:4]"),
+    ("diol_monoacylation", "[OH:1][C:2][C:3][OH:4].[C:5](=[O:6])[Cl:7]>>[OH:1][C:2][C:3][O:4][C:5]=[O:6].[ClH:7]"),
+    ("diene_12_addition", "[C:1]=[C:2][C:3]=[C:4].[BrH:5]>>[CH:1][C:2]([Br:5])[C:3]=[C:4]"),
+    ("diene_14_addition", "[C:1]=[C:2][C:3]=[C:4].[BrH:5]>>[CH:1][C:2]=[C:3][C:4][Br:5]"),
+    ("diels_alder", "[C:1]=[C:2][C:3]=[C:4].[C:5]=[C:6]>>[C:1]1[C:2]=[C:3][C:4][C:5][C:6]1"),
+    ("metathesis", "[C:1]=[C:2].[C:3]=[C:4]>>[C:1]=[C:3].[C:2]=[C:4]"),
+    ("cycloaddition_2_2", "[C:1]=[C:2].[C:3]=[C:4]>>[C:1]1[C:2][C:4][C:3]1"),
+    ("epoxide_hydrolysis", "[C:1]1[O:2][C:3]1.[OH2:4]>>[OH:2][C:1][C:3][OH:4]"),
+    ("aldol", "[C:1][C:2](=[O:3])[CH:4].[C:5]=[O:6]>>[C:1][C:2](=[O:3])[C:4][C:5][OH:6]"),
+    ("transesterification", "[C:1][O:2][C:3]=[O:4].[C:5][OH:6]>>[C:5][O:6][C:3]=[O:4].[C:1][OH:2]"),
+    ("amination_expl", "[C:1][Cl:2].[N:3][H:4]>>[C:1][N:3].[Cl:2][H:4]"),
+    ("diester_monohydrolysis", "[C:1][O:2][C:3](=[O:4])[C:5][C:6](=[O:7])[O:8][C:9].[OH2:10]>>[C:1][O:2][C:3](=[O:4])[C:5][C:6](=[O:7])[OH:8].[C:9][OH:10]"),
+    ("cope", "[C:1]=[C:2][C:3][C:4][C:5]=[C:6]>>[C:2]([C:1][C:6][C:5]=[C:4])=[C:3]"),
+    ("ether_cleavage", "[C:1][O:2][C:3].[IH:4]>>[C:1][OH:2].[C:3][I:4]"),
+    ("disulfide_exchange", "[C:1][S:2][S:3][C:4].[C:5][SH:6]>>[C:1][S:2][S:6][C:5].[C:4][SH:3]"),
+    ("anhydride_aminolysis", "[C:1][C:2](=[O:3])[O:4][C:5](=[O:6])[C:7].[NH3:8]>>[C:1][C:2](=[O:3])[NH2:8].[OH:4][C:5](=[O:6])[C:7]"),
+]
+
+
+def star_templates():
+    """'One of n equivalent ligands reacts': centre atom X with n ligands L and a reagent H-Nu; one X-L bond is broken and
+    either X takes the hydrogen and L the nucleophile ('XH': dealkylation type) or X takes the nucleophile and L leaves with
+    the hydrogen ('XNu': hydrolysis / ligand exchange type).  The left-hand side has the full symmetry of the n ligands, the
+    rule only that of the n-1 that stay; with L = Nu (ligand exchange) the same holds backwards."""
+    hs = {"O": 2, "S": 2, "N": 3}
+
+    def h(el, k):
+        return f"{el}H{k}" if k > 1 else (f"{el}H" if k == 1 else el)
+
+    out = []
+    for X, n, L, Nu, variant in (("N", 3, "C", "O", "XH"), ("N", 3, "C", "S", "XH"), ("P", 3, "C", "O", "XH"),
+                                 ("B", 3, "C", "O", "XNu"), ("B", 3, "O", "O", "XNu"), ("B", 3, "O", "N", "XNu"), ("B", 3, "N", "O", "XNu"),
+                                 ("P", 3, "O", "O", "XNu"), ("P", 3, "Cl", "O", "XNu"), ("Si", 4, "O", "O", "XNu"), ("Si", 4, "C", "O", "XNu"),
+                                 ("C", 4, "Cl", "O", "XNu"), ("C", 4, "O", "O", "XNu"), ("C", 4, "S", "O", "XNu"), ("C", 4, "C", "N", "XNu")):
+        stay = "".join(f"([{L}:{i}])" for i in range(3, n + 1))
+        last, nu = n + 1, n + 2
+        lhs = f"[{L}:2][{X}:1]{stay}[{L}:{last}].[{h(Nu, hs[Nu])}:{nu}]"
+        if variant == "XH":
+            rhs = f"[{L}:2][{X}H:1]{stay}.[{L}:{last}][{h(Nu, hs[Nu] - 1)}:{nu}]"
+        else:
+            rhs = f"[{L}:2][{X}:1]{stay}[{h(Nu, hs[Nu] - 1)}:{nu}].[{L}H:{last}]"
+        out.append((f"star_{X}{L}{n}_{Nu}_{variant}", lhs + ">>" + rhs))
+    return out
+
+
+RULE_TEMPLATES = star_templates() + RULE_TEMPLATES
+_GROUPS = ["C", "CC", "C(C)C", "F", "Cl", "OC", "CCC", "C(C)(C)C", "N(C)C", "C#N"]
+_C_GROUPS = ["C", "CC", "C(C)C", "CCC", "C(C)(C)C", "CCCC", "CC(C)C", "CCF"]  # what is attached to a hetero atom
+_SPECTATORS = ["O", "CCO", "N", "CC(C)=O", "ClCCl", "c1ccccc1"]
+
+
+def label_tables(rsmi):
+    """-> (labels sorted, element of each label, labels inside the centre) from the input alone (RDKit tables)."""
+    rs, ps = rsmi.split(">>")
+    ra, rb, _, _ = C._side_table(rs)
+    pa, pb, _, _ = C._side_table(ps)
+    labels = sorted(set(ra) | set(pa))
+    el = {m: (ra.get(m) or pa.get(m))[0] for m in labels}
+    centre = {x for e in set(rb) | set(pb) if rb.get(e, 0) != pb.get(e, 0) for x in e}
+    centre |= {m for m in labels if m in ra and m in pa and (ra[m][1] != pa[m][1] or ra[m][2] != pa[m][2])}
+    return labels, el, centre
+
+
+def _shuffled_within(classes, rnd):
+    d = {}
+    for cls in classes:
+        cls = sorted(cls)
+        img = cls[:]
+        rnd.shuffle(img)
+        d.update(zip(cls, img))
+    return d
+
+
+def permute_maps(rsmi, kind, seed, rewrite=False):
+    """Another writing of the same mapped reaction: the atom-map numbers renamed by an injection chosen by `kind`
+    (full: any permutation of the label set; centre / context: permutation of the labels inside / outside the centre;
+    element: permutation inside every element class; swap: one transposition, of two labels of one element when there
+    are such; fresh: an injection into unused numbers; identity), optionally also written in another atom order.
+    Self-checked: both sides denote the same molecules and, read back through the renaming, the same atoms, charges,
+    hydrogen counts and bonds (else RewriteFailed: the variant is not used)."""
+    import random as _random
+    from rdkit import Chem
+
+    C._quiet()
+    rnd = _random.Random(seed)
+    labels, el, centre = label_tables(rsmi)
+    ident = {m: m for m in labels}
+    if kind == "full":
+        d = _shuffled_within([labels], rnd)
+    elif kind == "centre":
+        d = {**ident, **_shuffled_within([[m for m in labels if m in centre]], rnd)}
+    elif kind == "context":
+        rest = [m for m in labels if m not in centre]
+        d = {**ident, **_shuffled_within([rest if len(rest) > 1 else labels], rnd)}
+    elif kind == "element":
+        by = {}
+        for m in labels:
+            by.setdefault(el[m], []).append(m)
+        d = _shuffled_within(by.values(), rnd)
+    elif kind == "swap":
+        by = {}
+        for m in labels:
+            by.setdefault(el[m], []).append(m)
+        pairs = [c for c in by.values() if len(c) > 1]
+        a, b = rnd.sample(rnd.choice(pairs), 2) if pairs and rnd.random() < 0.8 else (rnd.sample(labels, 2) if len(labels) > 1 else (labels[0], labels[0]))
+        d = dict(ident)
+        d[a], d[b] = b, a
+    elif kind == "fresh":
+        if rnd.random() < 0.5:
+            off = rnd.randrange(1, 60)
+            d = {m: m + off for m in labels}
+        else:
+            d = dict(zip(labels, rnd.sample(range(1, 4 * len(labels) + 40), len(labels))))
+    elif kind == "identity":
+        d = ident
+    else:
+        raise ValueError(kind)
+    rs, ps = rsmi.split(">>")
+    mr, mp = C._mol_keep_h(rs), C._mol_keep_h(ps)
+    for m in (mr, mp):
+        for a in m.GetAtoms():
+            if a.GetAtomMapNum():
+                a.SetAtomMapNum(d[a.GetAtomMapNum()])
+    out = Chem.MolToSmiles(mr) + ">>" + Chem.MolToSmiles(mp)
+    if rewrite:
+        out = C.rewrite_reaction(out, seed % (2**30) + 3)
+    # self-check
+    if [C.canon_unmapped(x) for x in out.split(">>")] != [C.canon_unmapped(x) for x in rsmi.split(">>")]:
+        raise C.RewriteFailed("renumbering changed the molecules: " + rsmi)
+    inv = {v: k for k, v in d.items()}
+    for old, new in zip(rsmi.split(">>"), out.split(">>")):
+        a0, b0, u0, _ = C._side_table(old)
+        a1, b1, u1, _ = C._side_table(new)
+        try:
+            a1 = {inv[m]: v for m, v in a1.items()}
+            b1 = {(min(inv[u], inv[v]), max(inv[u], inv[v])): o for (u, v), o in b1.items()}
+        except KeyError:
+            raise C.RewriteFailed("renumbering lost a label: " + rsmi)
+        if a0 != a1 or b0 != b1 or u0 != u1:
+            raise C.RewriteFailed("renumbering changed the mapped reaction: " + rsmi)
+    return out
+
+
+def decorate(side, rnd, p_group=0.4, p_spectator=0.2, max_heavy=18):
+    """A substrate containing one side of a rule-like template: every open valence of a context atom (written
+    without hydrogens, so RDKit reads it as a radical) is saturated with hydrogen or, with probability p_group, a
+    small substituent drawn per position — positions that the template's symmetry exchanges usually become
+    chemically different; sometimes a spectator molecule is added.  -> SMILES without atom maps, or None."""
+    from rdkit import Chem
+
+    C._quiet()
+    try:
+        rw = Chem.RWMol(C._mol_keep_h(side))
+        todo = []
+        for a in rw.GetAtoms():
+            a.SetAtomMapNum(0)
+            k = a.GetNumRadicalElectrons()
+            if a.GetSymbol() == "H" or not k:
+                continue
+            todo.append((a.GetIdx(), k, a.GetTotalNumHs()))
+        for idx, k, h in todo:
+            for _ in range(k):
+                carbon = rw.GetAtomWithIdx(idx).GetSymbol() == "C"
+                if rnd.random() < (p_group if carbon else 0.75):
+                    grp = Chem.MolFromSmiles(rnd.choice(_GROUPS if carbon else _C_GROUPS))
+                    off = rw.GetNumAtoms()
+                    rw = Chem.RWMol(Chem.CombineMols(rw, grp))
+                    rw.AddBond(idx, off, Chem.BondType.SINGLE)
+                else:
+                    h += 1
+            a = rw.GetAtomWithIdx(idx)
+            a.SetNumRadicalElectrons(0)
+            a.SetNoImplicit(True)
+            a.SetNumExplicitHs(h)
+        Chem.SanitizeMol(rw)
+        smi = Chem.MolToSmiles(rw)
+    except Exception:  # noqa: BLE001 - the generator failed to build a molecule: no substrate
+        return None
+    out = C.unmapped_side(smi)
+    if out is None:
+        return None
+    if rnd.random() < p_spectator:
+        out = out + "." + rnd.choice(_SPECTATORS)
+    mol = Chem.MolFromSmiles(out)
+    if mol is None or mol.GetNumHeavyAtoms() > max_heavy:
+        return None
+    return out
+
+
+def _chem(name, tpl, core, invert, mode, substrate, family):
+    return {"name": name, "template": tpl, "core": core, "invert": invert, "mode": mode, "substrate": substrate, "family": family}
+
+
+def chem_key(c):
+    return json.dumps([c["template"], c["core"], c["invert"], c["mode"], c["substrate"]])
+
+
+def build_chems(ctx, corpus, infos, n_rule_sub, n_corpus, max_atoms):
+    """The (template, direction, substrate) triples histories are made of: rule-like symmetric templates x
+    {centre, full ITS} x {forward, backward} x generated substrates; the hand-written symmetric pairs; corpus
+    reactions (own side, or the side of a reaction with the same changed-bond multiset)."""
+    rnd = ctx.rnd
+    chems = []
+    for name, tpl in RULE_TEMPLATES:
+        info = C.analyze_reaction(tpl)
+        if not info["ok"] or info["mode"] == "mixed":
+            ctx.count("history_rule_template_unusable")
+            continue
+        for invert in (False, True):
+            side = tpl.split(">>")[1 if invert else 0]
+            subs = []
+            for _ in range(4 * n_rule_sub):
+                s = decorate(side, rnd)
+                if s and s not in subs:
+                    subs.append(s)
+                if len(subs) >= n_rule_sub:
+                    break
+            for s in subs:
+                for core in (False, True):
+                    chems.append(_chem(f"rule:{name}/{'centre' if core else 'its'}/{'bw' if invert else 'fw'}", tpl, core, invert,
+                                       info["mode"], s, "star" if name.startswith("star_") else "rule"))
+    for ex in extra_cases(ctx, 0):
+        chems.append(_chem(ex["name"], ex["template"], True, ex["invert"], ex["mode"], ex["substrate"], "extra"))
+    pool = [(rid, rs) for rid, rs in corpus if eligible(infos[rid]) and infos[rid]["n_atoms"] <= max_atoms]
+    by_key, sides = {}, {}
+    for rid, rs in pool:
+        sd = [C.unmapped_side(x) for x in rs.split(">>")]
+        if None in sd:
+            continue
+        sides[rid] = sd
+        by_key.setdefault(rc_key_of(rs), []).append(rid)
+    pool = [(rid, rs) for rid, rs in pool if rid in sides]
+    for rid, rs in (pool if n_corpus >= len(pool) else rnd.sample(pool, n_corpus)):
+        core = rnd.random() < 0.7
+        invert = rnd.random() < 0.5
+        sid = rid
+        if core and rnd.random() < 0.5:
+            same = [x for x in by_key[rc_key_of(rs)] if x != rid]
+            if same:
+                sid = rnd.choice(same)
+        chems.append(_chem(f"corpus:{rid}/{'centre' if core else 'its'}/{'bw' if invert else 'fw'}/{'own' if sid == rid else 'foreign:' + sid}",
+                           rs, core, invert, infos[rid]["mode"], sides[sid][1 if invert else 0], "corpus"))
+    return chems
+
+
+def _step(ctx_rnd, chem, kind, base=False):
+    """One call of a history: the chemistry written another way (or as written when `base`)."""
+    rnd = ctx_rnd
+    strategies = list(C.STRATEGIES)
+    rnd.shuffle(strategies)
+    st = {"chem": chem_key(chem), "core": chem["core"], "invert": chem["invert"], "mode": chem["mode"],
+          "strategies": strategies, "automorphism": rnd.random() < 0.5, "repeat": 2 if rnd.random() < 0.25 else 1,
+          "tform": rnd.choice(["its", "its", "shared", "rule"] + ([] if chem["core"] else ["str"])),
+          "kind": "as-written" if base else kind}
+    tseed, sseed, rew = rnd.randrange(1, 2**30), rnd.randrange(1, 2**30), rnd.random() < 0.3
+    if base:
+        st["template"], st["substrate"] = chem["template"], chem["substrate"]
+        return st
+    try:
+        st["template"] = permute_maps(chem["template"], kind, tseed, rewrite=rew)
+    except C.RewriteFailed:
+        st["template"] = chem["template"]
+        st["kind"] = "as-written(rewrite failed)"
+    st["substrate"] = C.rewrite_smiles(chem["substrate"], sseed) if rnd.random() < 0.7 else chem["substrate"]
+    return st
+
+
+def build_histories(ctx, chems, n, ladder_every=4):
+    """Seeded histories.  Each has a main chemistry A and up to two others (the same template on another substrate,
+    a chemistry of the same family, any chemistry).  Shapes: 'mixed' — A as written or renumbered first, then a
+    random interleaving of renumberings of A, calls of the others and exact repetitions of earlier steps;
+    'ladder' — A under one kind of renumbering many times (all within the same label set), the others in between."""
+    rnd = ctx.rnd
+    by_tpl, by_fam = {}, {}
+    for c in chems:
+        by_tpl.setdefault((c["template"], c["invert"]), []).append(c)
+        by_fam.setdefault(c["family"], []).append(c)
+    # the main chemistry is drawn stratum by stratum (family, template form, direction), so that every run holds a fixed share of
+    # each: full rule-like templates applied forwards (context atoms inside the pattern: the left-hand side can be more symmetric
+    # than the rule) most often
+    strata = [("star", False, False)] * 3 + [("star", False, True), ("star", True, False), ("star", True, True)] \
+        + [("rule", False, False)] * 2 + [("rule", False, True), ("rule", True, None)] + [("extra", None, None)] * 2 + [("corpus", None, None)] * 2
+    hists = []
+    for h in range(n):
+        fam, core, invert = strata[h % len(strata)]
+        cand = [c for c in by_fam.get(fam, []) if core in (None, c["core"]) and invert in (None, c["invert"])] or chems
+        A = rnd.choice(cand)
+        others = []
+        sib = [c for c in by_tpl[(A["template"], A["invert"])] if c is not A]
+        if sib and rnd.random() < 0.5:
+            others.append(rnd.choice(sib))
+        if rnd.random() < 0.7:
+            others.append(rnd.choice(by_fam[A["family"]]))
+        if rnd.random() < 0.4 or not others:
+            others.append(rnd.choice(chems))
+        steps = []
+        if rnd.random() < 1.0 / ladder_every:
+            shape = "ladder"
+            kind = rnd.choice(["element", "element", "swap", "centre", "full", "context"])
+            first_written = rnd.random() < 0.5
+            if first_written:
+                steps.append(_step(rnd, A, kind, base=True))
+            for i in range(rnd.randint(4, 6)):
+                steps.append(_step(rnd, A, kind))
+                if rnd.random() < 0.35:
+                    steps.append(_step(rnd, rnd.choice(others), rnd.choice(PERM_DRAW), base=rnd.random() < 0.5))
+            if not first_written:
+                steps.append(_step(rnd, A, kind, base=True))
+        else:
+            shape = "mixed"
+            steps.append(_step(rnd, A, rnd.choice(PERM_DRAW), base=rnd.random() < 0.5))
+            for i in range(rnd.randint(4, 7)):
+                r = rnd.random()
+                if r < 0.55:
+                    steps.append(_step(rnd, A, rnd.choice(PERM_DRAW), base=rnd.random() < 0.15))
+                elif r < 0.85:
+                    steps.append(_step(rnd, rnd.choice(others), rnd.choice(PERM_DRAW), base=rnd.random() < 0.4))
+                else:
+                    again = dict(rnd.choice(steps))
+                    again["kind"] = "repeat-of-earlier-step"
+                    again["automorphism"] = rnd.random() < 0.5
+                    steps.append(again)
+        used = {chem_key(A): A}
+        for o in others:
+            used[chem_key(o)] = o
+        used = {k: v for k, v in used.items() if any(s["chem"] == k for s in steps)}
+        hists.append({"name": f"h{h}:{shape}:{A['name']}", "shape": shape, "steps": steps, "chems": used})
+    return hists
+
+
+# ----------------------------------------------------------------------------- worker side (fresh interpreter per history)
+def _apply_step(sr, std, tpl_obj, st, strategy, want_raw):
+    """One SynReactor run of a history step (as `reactor_inv_common._apply_once`, plus the `automorphism` option, a
+    template that may be a string / shared graph / SynRule, and the result list read twice from one reactor)."""
+    calls = []
+    orig = sr.SubgraphSearchEngine
+
+    class Recorder(orig):  # records what the search returned before pruning
+        @staticmethod
+        def find_subgraph_mappings(*a, **k):
+            r = orig.find_subgraph_mappings(*a, **k)
+            calls.append(r)
+            return r
+
+    kw = dict(C._mode_kwargs(st["mode"]))
+    if st.get("automorphism"):
+        kw["automorphism"] = True
+    reactor = sr.SynReactor(st["substrate"], tpl_obj, invert=st["invert"], strategy=strategy, **kw)
+    sr.SubgraphSearchEngine = Recorder
+    try:
+        maps = reactor.mappings
+    finally:
+        sr.SubgraphSearchEngine = orig
+    raw = [dict(m) for m in calls[0]] if calls else None
+
+    def fit_all(smarts):
+        res = set()
+        for s in smarts:
+            try:
+                f = std.fit(s)
+            except Exception:  # noqa: BLE001
+                f = None
+            if f is not None:
+                res.add(f)
+        return sorted(res)
+
+    first = fit_all(list(reactor.smarts_list))
+    out = {"results": first, "n_map": len(maps), "n_raw": None if raw is None else len(raw),
+           "reread_equal": fit_all(list(reactor.smarts_list)) == first}
+    if want_raw and raw is not None:
+        reactor._mappings = raw  # glue EVERY raw match through the reactor's own internals (no pruning)
+        reactor._its = None
+        reactor._smarts = None
+        out["results_raw"] = fit_all(reactor.smarts_list)
+    return out
+
+
+def history_task(task):
+    """Worker entry: all steps of one history, in order, in this (fresh) interpreter.
+    task: {key, steps, timeout (per step)} -> {key, steps: [{status, runs: {strategy: [run, ...]}}]}"""
+    import signal
+    import time
+
+    t0 = time.time()
+    out = {"key": task["key"], "steps": []}
+    import synkit.Synthesis.Reactor.syn_reactor as sr
+    from synkit.Chem.Reaction.standardize import Standardize
+    from synkit.Graph.canon_graph import GraphCanonicaliser
+    from synkit.IO.chem_converter import rsmi_to_its
+    from synkit.Rule import SynRule
+
+    std = Standardize()
+    shared = {}
+    for st in task["steps"]:
+        C._ALARM["fired"] = False
+        res = {"status": "ok", "runs": {}}
+        try:
+            signal.setitimer(signal.ITIMER_REAL, float(task.get("timeout", 30)))
+            tform = st.get("tform", "its")
+            tkey = (st["template"], st["core"], st["mode"], tform)
+            if tform == "str":
+                tpl = st["template"]
+            elif tform in ("shared", "rule") and tkey in shared:
+                tpl = shared[tkey]
+            else:
+                tpl = rsmi_to_its(st["template"], core=st["core"])
+                if tform == "rule" and not st["invert"]:
+                    # the SynRule the reactor would build itself (SynReactor._wrap_template, forward), kept and reused
+                    tpl = (SynRule(tpl, canonicaliser=GraphCanonicaliser(), implicit_h=False) if st["mode"] != "explicit"
+                           else SynRule(tpl, canonicaliser=GraphCanonicaliser()))
+                if tform in ("shared", "rule"):
+                    shared[tkey] = tpl
+            for strat in st["strategies"]:
+                for rep in range(st.get("repeat", 1)):
+                    res["runs"].setdefault(strat, []).append(
+                        _apply_step(sr, std, tpl, st, strat, rep == 0 and strat in ("all", st["strategies"][0])))
+        except C.CaseTimeout:
+            res["status"] = "timeout"
+        except Exception as e:  # noqa: BLE001 - an exception of the implementation is a result, not a crash
+            res["status"] = "error:" + type(e).__name__
+            res["error"] = str(e)[:300]
+        finally:
+            signal.setitimer(signal.ITIMER_REAL, 0)
+        if C._ALARM["fired"]:
+            res["status"] = "timeout"
+        out["steps"].append(res)
+        if res["status"] == "timeout":
+            break  # what follows would run in a state the time-out left behind: not evaluated
+    out["wall"] = round(time.time() - t0, 3)
+    return out
+
+
+class FreshPool:
+    """Every task runs in an interpreter of its own (forked from the harness, which never imports synkit), so that a
+    history starts from the library's initial state and a replay reproduces it."""
+
+    def __init__(self, workers=None):
+        import multiprocessing as mp
+        import os
+
+        self.pool = mp.get_context("fork").Pool(workers or min(16, os.cpu_count() or 4), initializer=C._worker_init, maxtasksperchild=1)
+
+    def run(self, tasks):
+        res = {}
+        for r in self.pool.imap_unordered(history_task, tasks, 1):
+            res[r["key"]] = r
+        return [res[t["key"]] for t in tasks]
+
+    def close(self):
+        self.pool.terminate()
+        self.pool.join()
+
+
+def reference_step(chem):
+    """The chemistry's call as written, alone: what every step of that chemistry has to reproduce."""
+    return {"chem": chem_key(chem), "template": chem["template"], "substrate": chem["substrate"], "core": chem["core"],
+            "invert": chem["invert"], "mode": chem["mode"], "strategies": list(C.STRATEGIES), "automorphism": False,
+            "repeat": 1, "tform": "its", "kind": "reference"}
+
+
+def step_public(st):
+    return {k: st[k] for k in ("template", "substrate", "core", "invert", "mode", "strategies", "automorphism", "repeat", "tform", "chem", "kind")}
+
+
+def judge_history(hist, result, refs, cmp):
+    """-> list of (what, step index, detail).  `refs`: chem key -> step result of the reference call (own interpreter)."""
+    bad = []
+    for i, (st, r) in enumerate(zip(hist["steps"], result["steps"])):
+        ref = refs.get(st["chem"])
+        where = {"step": i, "of": len(hist["steps"]), "template": st["template"], "substrate": st["substrate"],
+                 "automorphism": st["automorphism"], "template_given_as": st["tform"], "renumbering": st["kind"]}
+        if r["status"] == "timeout" or ref is None or ref["status"] == "timeout":
+            continue
+        if r["status"].startswith("error") or ref["status"].startswith("error"):
+            if r["status"] != ref["status"] and (r["status"] == "ok" or ref["status"] == "ok"):
+                bad.append(("G1 rule application raises for one writing of the inputs / one history and answers for another", i,
+                            dict(where, status=r["status"], message=r.get("error"), reference_status=ref["status"])))
+            continue
+        runs = r["runs"]
+        for strat in C.STRATEGIES:
+            rr = runs[strat]
+            base = ref["runs"][strat][0]["results"]
+            got = rr[0]["results"]
+            if not cmp.equal(got, base):
+                bad.append(("G1 result set differs from the result of the same chemistry as written, applied in an interpreter of its own "
+                            "(depends on the numbering / writing or on what was applied before)", i,
+                            dict(where, strategy=strat, reference=len(base), here=len(got),
+                                 lost=sorted(set(base) - set(got))[:6], gained=sorted(set(got) - set(base))[:6])))
+                break
+        for strat in C.STRATEGIES:
+            rr = runs[strat]
+            if (len(rr) > 1 and rr[0]["results"] != rr[1]["results"]) or not rr[0]["reread_equal"]:
+                bad.append(("G2 repeating the call changes the result set", i, dict(where, strategy=strat)))
+            if "results_raw" in rr[0] and not cmp.equal(rr[0]["results_raw"], rr[0]["results"]):
+                bad.append(("G5 symmetry pruning changes the set of distinct reactions", i,
+                            dict(where, strategy=strat, raw_matches=rr[0]["n_raw"], kept_matches=rr[0]["n_map"],
+                                 with_pruning=len(rr[0]["results"]), every_raw_match=len(rr[0]["results_raw"]),
+                                 lost=sorted(set(rr[0]["results_raw"]) - set(rr[0]["results"]))[:6],
+                                 gained=sorted(set(rr[0]["results"]) - set(rr[0]["results_raw"]))[:6])))
+        a, c, b = (set(runs[s][0]["results"]) for s in ("all", "comp", "bt"))
+        if not cmp.subset(c, a):
+            bad.append(("G3 component-aware results are not a subset of the exhaustive results", i, dict(where, extra=sorted(c - a)[:6])))
+        if c and not cmp.equal(b, c):
+            bad.append(("G4 fallback strategy differs from the non-empty component-aware result", i, dict(where, comp=len(c), bt=len(b))))
+        if runs["comp"][0]["n_raw"] == 0 and not cmp.equal(b, a):
+            bad.append(("G4 fallback strategy differs from the exhaustive result although the component-aware search found nothing", i,
+                        dict(where, all=len(a), bt=len(b))))
+        if not cmp.subset(b, a):
+            bad.append(("G4 fallback results are not a subset of the exhaustive results", i, dict(where, extra=sorted(b - a)[:6])))
+    return bad
+
+
+def history_public(hist, steps=None):
+    steps = hist["steps"] if steps is None else steps
+    keys = {s["chem"] for s in steps}
+    return {"stream": "history", "steps": [step_public(s) for s in steps],
+            "chems": {k: {x: v[x] for x in ("template", "core", "invert", "mode", "substrate")} for k, v in hist["chems"].items() if k in keys}}
+
+
+def _eval_histories(fpool, hists, timeout, refs=None):
+    """Run histories + the reference calls they need (each in an interpreter of its own). -> (results, refs)"""
+    refs = {} if refs is None else refs
+    need = {}
+    for h in hists:
+        for k, c in h["chems"].items():
+            if k not in refs:
+                need[k] = c
+    tasks = [{"key": f"H{i}", "steps": h["steps"], "timeout": timeout} for i, h in enumerate(hists)]
+    rkeys = sorted(need)
+    tasks += [{"key": f"R{j}", "steps": [reference_step({**need[k], "name": ""})], "timeout": timeout} for j, k in enumerate(rkeys)]
+    out = fpool.run(tasks)
+    for j, k in enumerate(rkeys):
+        refs[k] = out[len(hists) + j]["steps"][0]
+    return out[:len(hists)], refs
+
+
+def shrink_history(fpool, hist, what, idx, timeout, refs):
+    """The failing step alone; else one earlier step + the failing step; else the prefix up to the failing step."""
+    steps = hist["steps"]
+
+    def cand(ss):
+        return {"name": hist["name"], "steps": ss, "chems": hist["chems"]}
+
+    cands = [[steps[idx]]] + [[steps[j], steps[idx]] for j in range(idx)]
+    results, _ = _eval_histories(fpool, [cand(ss) for ss in cands], timeout, refs)
+    for ss, r in zip(cands, results):
+        if len(r["steps"]) == len(ss) and any(w == what and i == len(ss) - 1 for w, i, _ in judge_history(cand(ss), r, refs, _Cmp())):
+            return ss
+    return steps[:idx + 1]
+
+
+def run_histories(ctx, fpool, hists, timeout, tag, shrink=3):
+    results, refs = _eval_histories(fpool, hists, timeout)
+    for k, r in refs.items():
+        ctx.count("history_reference_status:" + r["status"].split(":")[0])
+    n_shrunk = 0
+    for hist, res in zip(hists, results):
+        ctx.count("histories")
+        ctx.count("history_shape:" + hist.get("shape", "given"))
+        for i, (st, r) in enumerate(zip(hist["steps"], res["steps"])):
+            ctx.count("history_step_status:" + r["status"].split(":")[0])
+            ctx.count("history_step_renumbering:" + st["kind"])
+            ctx.count("history_step_template_given_as:" + st["tform"])
+            ctx.count("history_step_automorphism:" + str(st["automorphism"]))
+            n_all = n_raw = 0
+            pruned = False
+            if r["status"] == "ok":
+                first = r["runs"]["all"][0]
+                n_all, n_raw = len(first["results"]), first["n_raw"] or 0
+                pruned = first["n_map"] < n_raw
+            ctx.count("history_step_results_all:" + ("0" if n_all == 0 else "1" if n_all == 1 else "2-4" if n_all <= 4 else "5+"))
+            ctx.count("history_step_raw_matches_all:" + ("0" if n_raw == 0 else "1" if n_raw == 1 else "2-9" if n_raw <= 9 else "10+"))
+            if pruned:
+                ctx.count("history_steps_where_pruning_removed_matches")
+            ctx.case({"stream": "history", "position": i, "before": [step_public(s) for s in hist["steps"][:i]], "step": step_public(st)},
+                     nontrivial=n_all >= 1,
+                     sample={"stream": tag, "name": hist["name"], "step": i, "template": st["template"], "substrate": st["substrate"],
+                             "results_all": n_all, "raw_matches": n_raw})
+        if len(res["steps"]) < len(hist["steps"]):
+            ctx.count("history_steps_not_evaluated_after_timeout", len(hist["steps"]) - len(res["steps"]))
+        cmp = _Cmp()
+        verdicts = judge_history(hist, res, refs, cmp)
+        if cmp.kekule_only:
+            ctx.count("comparisons_equal_only_up_to_kekule_form(not gated)", cmp.kekule_only)
+        seen = set()
+        for what, idx, detail in verdicts:
+            if what in seen:
+                continue  # the first failing step of each kind per history
+            seen.add(what)
+            if shrink and n_shrunk < shrink:
+                n_shrunk += 1
+                steps = shrink_history(fpool, hist, what, idx, timeout, refs)
+            else:
+                steps = hist["steps"][:idx + 1]
+            ctx.violation(what, history_public(hist, steps), dict(detail, name=hist["name"], stream=tag, steps_in_replay=len(steps)))
+
+
+def history_from_case(c):
+    return {"name": c.get("name", "replay"), "shape": "given", "steps": c["steps"], "chems": c["chems"]}
+
+
 def replay(ctx, case):
     c = case.get("case", case)
+    if c.get("stream") == "history":
+        fpool = FreshPool(4)
+        try:
+            run_histories(ctx, fpool, [history_from_case(c)], 120.0, "replay", shrink=0)
+        finally:
+            fpool.close()
+        return
     if c.get("stream") == "graph":
         pool = C.Pool(2)
         try:
